@@ -198,7 +198,7 @@ class CFG:
     """
 
     def __init__(self, fn: ast.AST, native_cancel: bool = False, extra_raises=None, hier: Hierarchy | None = None,
-                 broad_handlers: bool = True):
+                 broad_handlers: bool = False):
         self.fn = fn
         self.native_cancel = native_cancel
         self.extra_raises = extra_raises
